@@ -378,7 +378,7 @@ def search_plan(ctx, cases):
             continue
         if budget.get(dim, 0) > 0:
             budget[dim] -= 1
-            plan[i] = ['default', 'near']
+            plan[i] = ['default', 'near'] + (['mixed'] if dim >= 2 and budget[dim] % 2 == 0 else [])
     return plan
 
 
@@ -412,6 +412,8 @@ def check_cases(ctx, fails, cases, plan):
             start = None
             if mode == 'near':
                 start = [p * (1 + 0.05 * (1 if k % 2 == 0 else -1)) + 0.02 for k, p in enumerate(cl['psi'])]
+            if mode == 'mixed':      # the docstring's own kind of start: some entries given, the others left at zero
+                start = [cl['psi'][0] * 1.05 + 0.02] + [0.0] * (len(cl['psi']) - 1)
             s = run_search(df, meta, f, start)
             ctx.evaluations += 1
             ctx.count('search:%s:%d-param' % (mode, dim))
@@ -574,6 +576,13 @@ def check_one(ctx, fails, df, meta, f, mods, cl, searches, pay, r):
             # the search did not find the root: alpha ~ 0 only because |psi| ran away (H(psi) separates A), the simplex
             # collapsed at a kink of sum|alpha|, or the iteration limit was hit
             kind = 'not-converged' if not s['success'] else ('spurious-root-at-large-psi' if (s['fun'] <= 1e-5 or not finite) else 'stalls-off-root')
+            if s['mode'] == 'mixed':
+                stuck = [k for k, (st, pv, cv) in enumerate(zip(s['start'], s['psi'], cl['psi'])) if st == 0.0 and pv == 0.0 and abs(cv) > 1e-6]
+                if stuck:
+                    fails.append((n, 'GEstimationSNM.search.mixed-start.coordinate-never-moved',
+                                  '[%d-parameter SNM] ' % dim + what + '; coordinate(s) %r started at 0 were returned as exactly 0.0' % stuck, spay))
+                    continue
+                s = dict(s, mode='near')         # otherwise the same (recorded) behaviour as any start near the solution
             if kind == 'not-converged' and s['nit'] < 500:
                 # the recorded finding is "the documented budget of 500 ITERATIONS is exhausted"; stopping unconverged with iterations
                 # to spare is something else (a different stopping rule or budget)
